@@ -187,10 +187,25 @@ func editCasesOf(rep *report, r *rng, tc codecCase, s string, unmarshalCase func
 	for _, e := range structuralEdits(s) {
 		try(e, "structural")
 	}
+	// every comma turned into '$' (the members of a group written as fragments of their own), and the reverse
+	try(strings.ReplaceAll(s, ",", "$"), "group_as_fragments")
+	if i := strings.IndexByte(s, '$'); i >= 0 {
+		if j := strings.LastIndexByte(s, '$'); j > i {
+			try(s[:i+1]+strings.ReplaceAll(s[i+1:j], "$", ",")+s[j:], "fragments_as_group")
+		}
+	}
+	// numbers past the width of their field (value + 2^8, 2^16, 2^32, 2^64): must be rejected, never reduced
+	for _, e := range numericEdits(s) {
+		try(e, "numeric_overflow")
+	}
 	// 8-bit bytes and UTF-8 sequences in place of every symbol
 	for i := 0; i < len(s); i++ {
 		for _, hi := range []string{"\xe9", "\xc3\xa9", "\x80"} {
 			try(s[:i]+hi+s[i+1:], "substitute_8bit")
+		}
+		// a two-byte character whose code point, cut to a byte, is the symbol it replaces (U+01xx), same byte length
+		if b := s[i]; i+1 < len(s) && b >= 0x21 && b < 0x80 {
+			try(s[:i]+string([]byte{0xC4 | b>>6, 0x80 | b&0x3F})+s[i+2:], "substitute_utf8_lowbyte")
 		}
 	}
 	// structural splices
